@@ -12,6 +12,14 @@ CLAIMED = {
          "TLC proves reference = algorithm = mathematical statement for every case of a 6/8-bit world; every such case is embedded into 128 bit and executed on the real functions, plus seeded boundary/random 128-bit cases; TLC recomputes the expected value of every record. Exhaustive for the small world, sampled at 128 bit.",
          "trusted: limb conversion in harness/ipcalc.go, TLC; preconditions re-checked by TLC (PreOK)", "DESIGN.md section 3 C20"),
 }
+_ALLOC_NOTE = "trusted: block-index/alignment/containment abstraction in harness/alloc.go (math/big), TLC; pools <= 1000 blocks; concurrency is sampled (16 goroutines) plus deterministic exclusion probes"
+for _i, _t in {
+  "C04": "Disjointness is an invariant of Alloc.tla and of the fine-grained AllocConc.tla (every interleaving of lock/test/set/unlock, TLC exhaustive); every (out-state x letter-sequence) of the 1..4-block models is replayed on both real allocators and validated by TLC, plus word-boundary random walks, the exclusion probe derived from the lock-free model's counterexample and a 16-goroutine stress whose in-lock observation points give the linearization order.",
+  "C05": "Capacity/in-pool/size are action properties of Alloc.tla (TLC exhaustive, N<=4); every out-state x letter-sequence replayed on both allocators over a table of pool geometries (incl. single block, ranges ending at 255.255.255.255, IPv6 pools on both sides of the 64-bit boundary) and validated by TLC; exhaustion reached in every pool.",
+  "C06": "FreeExact is an action property of Alloc.tla (TLC exhaustive); all sequences include Free of every block, sub-prefix and prefixes below/above the pool, replayed on both allocators and validated by TLC together with the consequences for later Allocate calls.",
+  "C07": "HintHonoured is an action property of Alloc.tla (TLC exhaustive); every block of the small pools and the word-boundary blocks of large pools are hinted in every out-state, in 4/16-byte and inside-the-block forms, validated by TLC.",
+}.items():
+    CLAIMED[_i] = ("Alloc", "TLA+ model of the allocators (atomic + fine-grained concurrent) checked by TLC; all bounded operation sequences executed on the real allocators and validated by TLC trace checking under the property's lens", _t, _ALLOC_NOTE, "DESIGN.md section 3 C04-C07")
 NOT_YET = {}
 
 def main():
